@@ -27,7 +27,10 @@ def null : BRes := ret .null
 
 /-! ### numeric helpers shared with the VM -/
 
-def isNumber (v : Value) : Bool := v.isType .INTEGER || v.isType .FLOAT
+def isNumber : Value → Bool
+  | .int _ => true
+  | .float _ => true
+  | _ => false
 
 def toFloat : Value → Float
   | .int i => i.toFloat
